@@ -123,21 +123,6 @@ Fixpoint has_op (e : lx) : bool :=
   | LMat rows => existsb (existsb has_op) rows
   end.
 
-(* dx/dy/dz lower their (transformed) argument with TerminalExpr when it carries a symbolic determinant
-   (L2: u^/det J; since the repair 81b21e6 - before it Derivative(det(Jacobian(M)), M[i]) nodes were left).  A SCALAR
-   function declared in an H(curl) space has the pull-back (J^-1)^T * u^ without determinant: it is not lowered and
-   the result is not a terminal expression; the model refuses it (such a declaration is outside [wt]). *)
-Fixpoint sym_scalar (e : lx) : bool :=
-  match e with
-  | LSF _ k => match k with KHcurl => true | _ => false end
-  | LNum _ _ | LConst _ | LCoord _ | LVF _ _ | LComp _ _ _ => false
-  | LAdd l | LMul l | LOther _ l => existsb sym_scalar l
-  | LPow b x => sym_scalar b || sym_scalar x
-  | LFn _ a | LGrad a | LCurl a | LDiv a | LLaplace a | LD _ a => sym_scalar a
-  | LDot a b | LInner a b | LCross a b => sym_scalar a || sym_scalar b
-  | LMat rows => existsb (existsb sym_scalar) rows
-  end.
-
 Section Model.
   Variable d : nat.          (* dimension of the domain *)
   Variable m : string.       (* name of the mapping *)
@@ -369,8 +354,9 @@ Section Model.
                   | _, _ => None
                   end
               end) rows)
-    | LD i a =>                                    (* Covariant(mapping, LogicalGrad(arg))[i] *)
-        if sym_scalar a then None else
+    | LD i a =>                                    (* Covariant(mapping, LogicalGrad(arg))[i]; the argument is
+                                                      lowered by TerminalExpr first when it carries det(Jacobian)
+                                                      (L2 pull-back u^/det J, repair 81b21e6) *)
         match logical a with
         | Some (Sc s) =>
             match lgrad (Sc s) with
